@@ -40,7 +40,12 @@ const CMDS: [&str; 4] = ["c0", "c1", "c2", "c3"];
 const LABELS: [&str; 3] = [":a", ":b", ":dup"];
 const GETTERS: [&str; 3] = ["e = get_last_error", "l = get_last_error_line", "s = get_last_error_source"];
 /// real SDK invocations that report an error (array_is_empty, base64, array_join are script-implemented commands)
-const REAL_FAIL: [&str; 12] = ["array_push nothandle 1", "substring abc 9", "array_pop nothandle", "x = calc 1 +", "map_put nomap k v", "x = array_is_empty nothandle", "x = substring abc 9", "read_properties", "x = set_contains nothandle v", "x = base64", "x = array_join nothandle ,", "array_is_empty nothandle"];
+const REAL_FAIL: [&str; 21] = [
+    // script-implemented commands whose FAILING inner instruction comes after instructions that produced values
+    "x = map_contains_value nothandle v", "x = map_contains_key nothandle k", "x = map_is_empty nothandle",
+    "x = set_is_empty nothandle", "x = set_from_array nothandle", "x = array_concat nothandle nothandle", "map_contains_value nothandle v",
+    "x = sha256sum /no/such/file/verif", "x = array_join nothandle",
+    "array_push nothandle 1", "substring abc 9", "array_pop nothandle", "x = calc 1 +", "map_put nomap k v", "x = array_is_empty nothandle", "x = substring abc 9", "read_properties", "x = set_contains nothandle v", "x = base64", "x = array_join nothandle ,", "array_is_empty nothandle"];
 const MAIN: &str = "main.ds";
 const INC: &str = "inc.ds";
 
@@ -638,6 +643,12 @@ fn gen_block(rng: &mut Rng, out: &mut Vec<String>, ind: &str, depth: usize, fn_n
 
 fn gen_b(rng: &mut Rng) -> Case {
     let mut lines = vec![];
+    // executable script files start with an interpreter line: an ordinary comment for the parser,
+    // it counts as line 1 (whether the text is then run from a file or not)
+    let shebang = rng.chance(1, 4);
+    if shebang {
+        lines.push("#!/usr/bin/env duck".to_string());
+    }
     let nf = rng.below(3);
     let mut fn_names = vec![];
     for k in 0..nf {
@@ -657,9 +668,13 @@ fn gen_b(rng: &mut Rng) -> Case {
     let inc_at_top = from_file && rng.chance(1, 2);
     if inc_at_top {
         let mut il = vec![];
-        if rng.chance(1, 2) {
-            il.push("# included file".to_string());
-            il.push(String::new());
+        match rng.below(3) {
+            0 => {
+                il.push("# included file".to_string());
+                il.push(String::new());
+            }
+            1 => il.push("#!/usr/bin/env duck".to_string()),
+            _ => {}
         }
         gen_block(rng, &mut il, "", 1, &[]);
         lines.push(format!("!include_files {}", INC));
